@@ -412,12 +412,29 @@ def collect(run, options: dict, label: str, kinds: typing.Tuple[str, ...]):
         spec.CAP_OVERRIDE.clear()
         if override:
             # user-reduced capacities: every variable-length array field of non-boolean elements gets capacity - 1 (>= 1)
-            for tt in types:
-                for f in tt.fields_except_padding:
+            seen_ids = set()
+
+            def register(ct, top):
+                """the same DSDL type may be represented by several pydsdl objects (one per place it is referenced from): the
+                override is per (type, field), so every object that stands for that field's array type gets it (keyed by
+                id(): without this a composite reached through an array / union option kept the DSDL capacity in the
+                specification while the C storage has the reduced one -- a false alarm on vk.UOwn, see DESIGN.md 9.3)"""
+                if (id(ct), top) in seen_ids:
+                    return
+                seen_ids.add((id(ct), top))
+                for f in ct.fields_except_padding:
                     dt = f.data_type
                     if isinstance(dt, pydsdl.VariableLengthArrayType) and not isinstance(dt.element_type, pydsdl.BooleanType) and dt.capacity > 1:
                         spec.CAP_OVERRIDE[id(dt)] = dt.capacity - 1
-                        defines.append(f"-D{spec.c_type_name(tt)}_{f.name}_ARRAY_CAPACITY_={dt.capacity - 1}U")
+                        if top:
+                            defines.append(f"-D{spec.c_type_name(ct)}_{f.name}_ARRAY_CAPACITY_={dt.capacity - 1}U")
+                    inner = dt
+                    while isinstance(inner, pydsdl.ArrayType):
+                        inner = inner.element_type
+                    if isinstance(inner, pydsdl.CompositeType):
+                        register(inner, False)
+            for tt in types:
+                register(tt, True)
             run.notes.setdefault("capacity_overrides", {})[label] = defines
         _STATE["override"] = bool(override)
         eng, binder = build_engine(work, types, defines)
